@@ -175,8 +175,9 @@ func (d *Decoder) decodeNALUs(pkt *rtp.Packet) ([][]byte, error) {
 
 		d.fragmentsSize += len(pkt.Payload[3:])
 
-		if d.fragmentsSize > h265.MaxAccessUnitSize {
-			errSize := d.fragmentsSize
+		// NALUs already buffered for this access unit count too
+		if (d.frameBufferSize + d.fragmentsSize) > h265.MaxAccessUnitSize {
+			errSize := d.frameBufferSize + d.fragmentsSize
 			d.resetFragments()
 			return nil, fmt.Errorf("NALU size (%d) is too big, maximum is %d",
 				errSize, h265.MaxAccessUnitSize)
